@@ -325,3 +325,80 @@ Proof.
   revert l. induction y as [|y IH]; intros l; [reflexivity|].
   destruct l as [|a l]; [now rewrite !skipn_nil|]. cbn [skipn Nat.add]. apply IH.
 Qed.
+
+(* ------------------------------------------------------------------ first occurrence, splitting at a separator *)
+
+Lemma prefixb_self_app p : forall b, prefixb p (p ++ b) = true.
+Proof. induction p as [|x p IH]; intros b; [destruct b; reflexivity|]. cbn. now rewrite N.eqb_refl, IH. Qed.
+
+Lemma prefixb_app_r p : forall s x, prefixb p s = true -> prefixb p (s ++ x) = true.
+Proof.
+  induction p as [|c p IH]; intros s x H; [destruct (s ++ x); reflexivity|].
+  destruct s as [|y s]; [discriminate|]. cbn in *. apply andb_true_iff in H. destruct H as [A B].
+  now rewrite A, (IH _ _ B).
+Qed.
+
+Lemma find_sub_from_min p : forall s i j, find_sub_from p s i = Some j ->
+  forall k, (i + k < j)%nat -> prefixb p (skipn k s) = false.
+Proof.
+  induction s as [|c s IH]; intros i j H k Hk.
+  - cbn in H. destruct (prefixb p []); [inversion H; lia|discriminate].
+  - cbn [find_sub_from] in H. destruct (prefixb p (c :: s)) eqn:E; [inversion H; lia|].
+    destruct k as [|k]; [exact E|]. cbn [skipn]. apply (IH _ _ H). lia.
+Qed.
+
+Lemma find_sub_min p s i : find_sub p s = Some i ->
+  forall k, (k < i)%nat -> prefixb p (skipn k s) = false.
+Proof. unfold find_sub. intros H k Hk. apply (find_sub_from_min _ _ _ _ H). lia. Qed.
+
+Lemma find_sub_from_none p : forall s i, find_sub_from p s i = None ->
+  forall k, prefixb p (skipn k s) = false.
+Proof.
+  induction s as [|c s IH]; intros i H k.
+  - cbn in H. rewrite skipn_nil. destruct (prefixb p []); [discriminate|reflexivity].
+  - cbn [find_sub_from] in H. destruct (prefixb p (c :: s)) eqn:E; [discriminate|].
+    destruct k as [|k]; [exact E|]. cbn [skipn]. now apply (IH _ H).
+Qed.
+
+Lemma find_sub_none p s : find_sub p s = None -> forall k, prefixb p (skipn k s) = false.
+Proof. unfold find_sub. apply find_sub_from_none. Qed.
+
+(* no occurrence of the one-character pattern below position j: the character is not there *)
+Lemma no_char_firstn c : forall j (s : str),
+  (forall k, (k < j)%nat -> prefixb [c] (skipn k s) = false) -> ~ In c (firstn j s).
+Proof.
+  induction j as [|j IH]; intros s H; [intros []|].
+  destruct s as [|x s]; [intros []|]. cbn [firstn]. intros [E|F].
+  - subst x. specialize (H 0%nat ltac:(lia)). cbn in H. now rewrite N.eqb_refl in H.
+  - apply (IH s); [|exact F]. intros k Hk. apply (H (S k)). lia.
+Qed.
+
+Lemma split_on_nosep c (s : str) : ~ In c s -> split_on c s = [s].
+Proof.
+  induction s as [|x s IH]; intros H; [reflexivity|]. cbn [split_on].
+  destruct (N.eqb x c) eqn:E.
+  - apply N.eqb_eq in E. subst x. exfalso. apply H. now left.
+  - rewrite IH; [reflexivity|]. intros F. apply H. now right.
+Qed.
+
+Lemma split_on_app c : forall a b : str, split_on c (a ++ c :: b) = split_on c a ++ split_on c b.
+Proof.
+  induction a as [|x a IH]; intros b.
+  - cbn [app split_on]. now rewrite N.eqb_refl.
+  - cbn [app split_on]. destruct (N.eqb x c); [now rewrite IH|].
+    rewrite IH. destruct (split_on c a) as [|p ps] eqn:E; [exfalso; eapply split_on_nonempty; eauto|].
+    reflexivity.
+Qed.
+
+Lemma split_on_hd c : forall (s f : str) l, split_on c s = f :: l -> exists rest, s = f ++ rest.
+Proof.
+  induction s as [|x s IH]; intros f l H.
+  - cbn in H. inversion H. now exists [].
+  - cbn [split_on] in H. destruct (N.eqb x c).
+    + inversion H. now exists (x :: s).
+    + destruct (split_on c s) as [|p ps] eqn:E; [exfalso; eapply split_on_nonempty; eauto|].
+      inversion H. subst. destruct (IH _ _ eq_refl) as [rest ->]. now exists rest.
+Qed.
+
+Lemma firstn_firstn_le {A} (a b : nat) (l : list A) : (a <= b)%nat -> firstn a (firstn b l) = firstn a l.
+Proof. intros H. rewrite firstn_firstn. f_equal. lia. Qed.
